@@ -40,8 +40,7 @@ def E : Out := .err (.stream 0)
 def splitLines : Nat → Bytes → List Bytes
   | 0, _ => []
   | k+1, p => if p.isEmpty then [] else
-      let l := (if p.contains LF then p.take (p.idxOf LF + 1) else p)
-      l :: splitLines k (p.drop l.length)
+      lineOf p :: splitLines k (p.drop (lineOf p).length)
 
 /-- `readlines(hint)`: all lines if the hint is absent or ≤ 0, else stop once the total EXCEEDS the hint -/
 def takeLines (hint : Option Int) : List Bytes → Nat → List Bytes
@@ -61,9 +60,7 @@ def pstep (p : PF) : FOp → PF × Out
   | .readline n =>
     if n == some 0 then (p, .bytes [])        -- IOBase.readline(0) never touches the file (closed or not)
     else if p.closed || !p.rd then (p, E) else
-    let rest := p.content.drop p.pos
-    let rest := match n with | none => rest | some k => rest.take k
-    let l := if rest.contains LF then rest.take (rest.idxOf LF + 1) else rest
+    let l := specLine n (p.content.drop p.pos)     -- first line of what follows, cut at the size limit
     ({ p with pos := p.pos + l.length }, .bytes l)
   | .readlines h =>
     if p.closed || !p.rd then (p, E) else
@@ -110,6 +107,8 @@ inductive Tag
   | x_mode_not_writable            -- mode "x" without "w": file is created but neither readable nor writable
   | readlines_hint_rounding        -- readlines(hint): hint <= 0 stops after one line; stops AT the hint, not past it
   | readline0_on_unreadable        -- readline(0) on a closed file / one not open for reading raises (a local file returns b"")
+  | unmodelled_server_readahead    -- NOT a finding: truncate through a handle that already served a READ; the
+                                   -- server's own buffered reader (CPython, in StubSFTPServer) may then be stale
   deriving DecidableEq, Repr
 
 def isReadOp : FOp → Bool
@@ -137,7 +136,8 @@ def triggers (o : Ops Srv) (f : BF Srv) (op : FOp) : List Tag :=
   | .truncate n =>
     t (live && !f.wr) .truncate_not_checked_writable ++
     t (live && f.wr && f.s.truncZero && n > 0) .truncate_zeroes_file ++
-    t (live && f.app) .truncate_in_append_mode
+    t (live && f.app) .truncate_in_append_mode ++
+    t (live && f.s.didRead) .unmodelled_server_readahead
   | .close => []
 
 /-- tags of a whole run (sticky: a later divergence may be the late effect of an earlier trigger) -/
